@@ -108,7 +108,20 @@ mod verif_kani {
     }
     pub fn h_parse_alc_pkt_total_cpother(buf: [u8; DGRAM], n: usize) {
         vk_assume!(buf[3] != 0 && buf[3] != 1 && buf[3] != 2 && buf[3] != 5 && buf[3] != 6 && buf[3] != 129);
-        h_parse_alc_pkt_total(buf, n);
+        // (own body: no codec exists for these codepoints, so the reachability guard is the refusal of a full-size header,
+        // not the accepted packet the shared body covers)
+        vk_assume!(n <= DGRAM);
+        let r = parse_alc_pkt(&buf[..n]);
+        vk_cover!(n >= 8 && r.is_err());
+        if let Ok(pkt) = r {
+            assert!(pkt.lct.header_ext_offset as usize <= pkt.lct.len);
+            assert!(pkt.lct.len == pkt.data_alc_header_offset);
+            assert!(pkt.data_alc_header_offset <= pkt.data_payload_offset);
+            assert!(pkt.data_payload_offset <= pkt.data.len());
+            assert!(pkt.data.len() == n);
+            let _ = get_sender_current_time(&pkt);
+            let _ = get_fec_inline_payload_id(&pkt);
+        }
     }
 
     const SMALL: usize = 28;
